@@ -23,7 +23,7 @@ class World(object):
         self.gen = G.Gen()
         self.seen = []
         rets = [S.texpr(t) for t in case['rets']]
-        for t in list(case['rets']) + [f['t'] for f in case['args']]:
+        for t in list(case['rets']) + [f['t'] for f in case['args']] + list(case.get('inh') or []) + list(case.get('outh') or []):
             S.register_subs(self.gen, t)
         kw = {}
         if case['style'] in ('bare', 'out_bare'):
